@@ -114,6 +114,7 @@ def ref_find_extrema(raw_padded, filt, offset, sig_len, boundary, first_extrema,
     peaks = [p - offset for p in peaks]
     troughs = [t - offset for t in troughs]
     info['dropped_pad_or_boundary'] = 0
+    info['n_half_waves'] = (len([p for p in peaks if 0 <= p < sig_len]), len([t for t in troughs if 0 <= t < sig_len]))      # before the boundary
     keep_p = [p for p in peaks if p > boundary and p < sig_len - boundary]
     keep_t = [t for t in troughs if t > boundary and t < sig_len - boundary]
     info['dropped_pad_or_boundary'] = len(peaks) - len(keep_p) + len(troughs) - len(keep_t)
